@@ -402,9 +402,39 @@ pub fn do_obs_snapshot(w: &mut World, k: usize) -> VResult<bool> {
     let bytes = w.ext.observers[k].group.snapshot().to_bytes().unwrap_or_default();
     crate::oracles::on_wire(w, &bytes, "external_snapshot")?;
     let client = make_client(w, w.ext.observers[k].jitter, w.ext.observers[k].app_cache);
-    let r = guarded(&prop, "observer.load_group", || {
-        client.load_group(ExternalSnapshot::from_bytes(&bytes)?)
-    })?;
+    // every other restore keeps the tree outside the snapshot (snapshot_without_ratchet_tree +
+    // load_group_with_ratchet_tree); the restored observer must be the same either way
+    let oob = crate::prng::mix(&[w.seed, w.step_no as u64, 0x0b5e]) % 2 == 0;
+    let r = if oob {
+        let tree = w.ext.observers[k].group.export_tree().unwrap_or_default();
+        let small = w.ext.observers[k].group.snapshot_without_ratchet_tree().to_bytes().unwrap_or_default();
+        w.stats.probe("observer-restored-with-tree-from-the-application");
+        if small.len() >= bytes.len() {
+            return Err(viol(
+                w,
+                "observer-snapshot-restore",
+                "tree-less-snapshot-not-smaller".into(),
+                format!("observer {k}: the snapshot without ratchet tree ({} bytes) is not smaller than the full one ({} bytes)", small.len(), bytes.len()),
+            ));
+        }
+        let again = w.ext.observers[k].group.snapshot().to_bytes().unwrap_or_default();
+        if again != bytes {
+            return Err(viol(
+                w,
+                "observer-snapshot-restore",
+                "tree-less-snapshot-changed-observer".into(),
+                format!("observer {k}: taking a snapshot without ratchet tree changed the observer"),
+            ));
+        }
+        guarded(&prop, "observer.load_group_with_ratchet_tree", || {
+            client.load_group_with_ratchet_tree(
+                ExternalSnapshot::from_bytes(&small)?,
+                mls_rs::group::ExportedTree::from_bytes(&tree)?,
+            )
+        })?
+    } else {
+        guarded(&prop, "observer.load_group", || client.load_group(ExternalSnapshot::from_bytes(&bytes)?))?
+    };
     match r {
         Ok(grp) => {
             let again = grp.snapshot().to_bytes().unwrap_or_default();
